@@ -365,7 +365,7 @@ func c02Case(seed int64, mode string) simCase {
 		CronCfg: &configv1alpha1.CronExecutionConfig{MaxMissedSchedules: pointer.Int64(int64(1 + r.Intn(8)))}}
 	prof := sim.Profile{MinJobConfigs: 1, MaxJobConfigs: 3, MinJobs: 0, MaxJobs: 2, OwnedBias: 100, Policies: allPolicies, MaxConcurrency: 2,
 		MaxAttempts: 1, PendingTimeout: []int64{0}, TTL: []int64{25}, Spread: 30, CronJCs: 3, CronStopAfter: time.Duration(40+r.Intn(40)) * time.Second,
-		Namespaces: []string{"default", "team-a"}, HostileNames: true, DupRequests: 30, DeletePct: 20, TemplateMeta: 50}
+		Namespaces: []string{"default", "team-a"}, HostileNames: true, DupRequests: 30, DeletePct: 20, TemplateMeta: 50, DeleteNewest: 2}
 	o.StoreYield = r.Intn(2) == 0
 	return simCase{Opt: o, Prof: prof}
 }
